@@ -135,6 +135,14 @@ class MonC01(object):
     def on_phase(self, tr, project, phase, snap):
         if phase == "initialized":
             self.prev_phase_state = dict(snap.tstate)
+            if tr.fresh_start:
+                # "tasks whose default progress is already complete are FINISHED from the start"
+                for t, st in snap.tstate.items():
+                    if exempt(t):
+                        tr.counters["C01.default_finished_checks"] += 1
+                        if st != TS.FINISHED:
+                            tr.violate("C01", "C01/default-finished-task-not-FINISHED-at-start",
+                                       "task %s has default_progress %r but is %s when the run starts" % (t.ID, t.default_progress, st.name), task=t)
             return
         for t, st in snap.tstate.items():
             p = self.prev_phase_state.get(t)
